@@ -96,7 +96,10 @@ fn render_case<F: Backend + RenderHints>(
         cancel: Default::default(),
     };
     cx.add("evals", 1);
-    let r = guard(|| render(b.shape.bind(&b.vars).unwrap(), &cfg, &ecfg));
+    // with the default tile sizes and the global pool the call is exactly what the
+    // convenience entry point RenderConfig::run does: use it
+    let via_run = chain.is_none() && matches!(pool, Some(ThreadPool::Global));
+    let r = guard(|| if via_run { Some(cfg.run(b.shape.bind(&b.vars).unwrap())) } else { render(b.shape.bind(&b.vars).unwrap(), &cfg, &ecfg) });
     let img = match r {
         Ok(Some(i)) => i,
         Ok(None) => {
